@@ -72,6 +72,8 @@ func (s step) String() string {
 		return fmt.Sprintf("discard %s", s.Child)
 	case "read":
 		return fmt.Sprintf("read view of %s", s.Trie)
+	case "cold-read":
+		return fmt.Sprintf("cold clone of %s iterated", s.Trie)
 	}
 	return s.Kind
 }
@@ -293,6 +295,7 @@ func run(rt *rapid.T) {
 	lateDelete := false
 	nested := false
 	byValue := false
+	coldReads := false
 	var nestForks []string
 	mergedCount := 0
 
@@ -534,6 +537,19 @@ func run(rt *rapid.T) {
 		}
 		w.steps = append(w.steps, st)
 		when := "after " + st.String()
+		// a reader with its own cold node cache walks one of the open tries (a query on pending state): reading changes nothing
+		if cands := w.openTries(); gen.Chance(rt, 12, "coldreader") {
+			t := gen.Pick(rt, cands, "coldwho")
+			if !t.stale && t.model != nil {
+				w.steps = append(w.steps, step{Kind: "cold-read", Trie: t.name})
+				when += ", cold reader on " + t.name
+				got, err := mptkit.Content(util.CloneMPT(t.mpt))
+				if err != nil || !mptkit.EqualContent(got, t.model) {
+					w.failf("%s: a cold clone of %s iterates to %s (%v), model %s", when, t.name, mptkit.Show(got), err, mptkit.Show(t.model))
+				}
+				coldReads = true
+			}
+		}
 
 		// (1) nobody else changed
 		for _, t := range open {
@@ -605,6 +621,7 @@ func run(rt *rapid.T) {
 	add(lateDelete, "delete-after-sibling-merge")
 	add(nested, "nested-prefix-triple")
 	add(byValue, "merge-by-value")
+	add(coldReads, "cold-reader")
 	add(mergedCount >= 2, "two-merges")
 	var sb strings.Builder
 	fmt.Fprintf(&sb, "%v|", w.genesis)
